@@ -11,7 +11,7 @@ import (
 // Read-only accessors for the verification harness (/verif, group Valid, property C11).
 // Built only with -tags verif.
 
-// VerifScanAll calls f for every key/value pair stored in the engine, in engine order
+// VerifScanAll calls f for every key/value pair stored in the engine (slices valid during the call only), in engine order
 // (committed data only; the pending default write batch is not visible).
 func (r *RockDB) VerifScanAll(f func(k, v []byte)) error {
 	it, err := r.rockEng.GetIterator(engine.IteratorOpts{})
@@ -20,7 +20,8 @@ func (r *RockDB) VerifScanAll(f func(k, v []byte)) error {
 	}
 	defer it.Close()
 	for it.SeekToFirst(); it.Valid(); it.Next() {
-		f(it.Key(), it.Value())
+		// references into the engine: f must copy what it keeps
+		f(it.RefKey(), it.RefValue())
 	}
 	return nil
 }
